@@ -130,16 +130,18 @@ Print Assumptions C11_forged_traffic_no_rearm.
    silent-coordinator sessions (the CoordinatorError retry without [c]; for keygen / resharing the
    CoordinatorError is returned) accepts the model for all message streams. *)
 Theorem C11_unresponsive_coordinator_classified :
-  forall (key : peer -> N) tm m holders t self unreach retryable msgs1 winner ready2 msgs2 c,
-  coordinator key holders = Some c -> In self holders -> self <> c -> wf_table m holders ->
+  forall (key : peer -> N) tm m br holders t self unreach retryable msgs1 bs ready2 msgs2 c,
+  coordinator key holders = Some c -> In self holders -> wf_table m holders ->
+  bully_guarded (br self bs (exclude holders [c])) self (exclude holders [c]) = true ->
   silent_ok (mkEnv tm holders t self unreach ready2 msgs2) retryable c msgs1
-    (session_silent key tm m classify holders t self retryable msgs1 winner ready2 msgs2) = true.
+    (session_silent key tm m br classify holders t self retryable msgs1 bs ready2 msgs2) = true.
 Proof. exact silent_ok_model. Qed.
 Print Assumptions C11_unresponsive_coordinator_classified.
 
 Theorem C11_judge_silent_sound : forall ev c msgs1 o,
-  silent_ok ev true c msgs1 o = true -> coordinator_unresponsive (e_tm ev) c msgs1 = true ->
-  exists cs, o_elected o = Some cs /\ ~ In c cs /\ (forall p, In p (e_holders ev) -> p <> c -> In p cs).
+  silent_ok ev true c msgs1 o = true -> coordinator_unresponsive (e_tm ev) c msgs1 = true -> e_self ev <> c ->
+  exists cs, o_elected o = Some cs /\ ~ In c cs /\ (forall p, In p (e_holders ev) -> p <> c -> In p cs)
+             /\ (forall p, In p (o_ready2 o) -> p <> c).
 Proof. exact silent_ok_sound. Qed.
 Print Assumptions C11_judge_silent_sound.
 
@@ -153,23 +155,82 @@ Theorem C11_replacement_runs : forall key holders t ps unreach self ready2,
 Proof. exact enough_announces. Qed.
 Print Assumptions C11_replacement_runs.
 
+(* THE ELECTION OF THE REPLACEMENT ATTEMPT.  [bs] = what arrives at this relayer during the bully election
+   (Select = "I am the coordinator", Election, Alive messages, in arrival order) from ANY peers: candidates,
+   excluded culprits that keep talking (they saw the attempt fail too and run their own election for the
+   session), peers that hold no key.  With the repaired rule (messages of peers outside the candidate list
+   are dropped) the election ends with this relayer or a candidate whatever is sent ... *)
+Theorem C11_bully_strict_guarded : forall (key : peer -> N) self bs cands,
+  bully_guarded (bully_strict key self bs cands) self cands = true.
+Proof. exact bully_strict_guarded. Qed.
+Print Assumptions C11_bully_strict_guarded.
+
+(* ... it is the outcome of the election in which the non-candidates' messages never arrived ... *)
+Theorem C11_bully_strict_ignores : forall (key : peer -> N) self bs cands,
+  bully_strict key self bs cands = bully_strict key self (filter (from_candidate cands) bs) cands.
+Proof. exact bully_strict_ignores. Qed.
+Print Assumptions C11_bully_strict_ignores.
+
+(* ... and among candidates only, the repaired rule is the rule as coded. *)
+Theorem C11_bully_strict_candidates_only : forall (key : peer -> N) self bs cands,
+  forallb (from_candidate cands) bs = true -> bully_strict key self bs cands = bully_coded key self bs cands.
+Proof. exact bully_strict_candidates_only. Qed.
+Print Assumptions C11_bully_strict_candidates_only.
+
+Theorem C11_bully_coded_candidates_guarded : forall (key : peer -> N) self bs cands,
+  forallb (from_candidate cands) bs = true -> bully_guarded (bully_coded key self bs cands) self cands = true.
+Proof. exact bully_coded_candidates_guarded. Qed.
+Print Assumptions C11_bully_coded_candidates_guarded.
+
+(* AS CODED (isPeerIDHigher leaves the index of a peer it does not find at 0): a relayer whose current
+   coordinator is the first candidate ignores the announcement of a peer outside the candidate list ... *)
+Theorem C11_bully_coded_first_ignores : forall s self cur x,
+  rank_coded s cur = 0%nat -> ~ In x s -> x <> self -> bully_step s self cur (BSelect x) = cur.
+Proof. exact bully_coded_first_ignores. Qed.
+Print Assumptions C11_bully_coded_first_ignores.
+
+(* ... but every relayer whose current coordinator is a later candidate ACCEPTS it, and the full statement
+   (C11_bully_strict_guarded for the rule as coded) is refuted: key holder 0 (second of the candidates
+   1, 0, 3) takes the excluded peer 2 for the coordinator of the replacement attempt. *)
+Theorem C11_bully_coded_open_seat : forall s self cur x,
+  (0 < rank_coded s cur)%nat -> ~ In x s -> bully_step s self cur (BSelect x) = x.
+Proof. exact bully_coded_open_seat. Qed.
+Print Assumptions C11_bully_coded_open_seat.
+
+Theorem C11_bully_coded_guarded_refuted :
+  exists (key : peer -> N) self bs cands,
+    In self cands /\ bully_guarded (bully_coded key self bs cands) self cands = false.
+Proof. exact bully_open_seat_refuted. Qed.
+Print Assumptions C11_bully_coded_guarded_refuted.
+
 (* The judge used on the implementation's observations accepts the model's whole session for every
-   input (hypotheses: this relayer holds a key and is not named as a culprit; the key holders are
-   entries of the peer table) and for every set of unreachable peers ... *)
-Theorem C11_spec_ok_model : forall (key : peer -> N) tm m holders t self unreach retryable runs1 e winner ready2 msgs2,
+   input (hypotheses: this relayer holds a key; the key holders are entries of the peer table; [br], the
+   election's outcome rule, ends with this relayer or a candidate), for every set of unreachable peers,
+   also for degenerate failure values (no culprit, culprits that hold no key, repeated culprits, the
+   empty peer id, this relayer itself as culprit) ... *)
+Theorem C11_spec_ok_model : forall (key : peer -> N) tm m br holders t self unreach retryable runs1 e bs ready2 msgs2,
   In self holders -> wf_table m holders ->
-  (forall ps, classify e = RetryExcluding ps -> ~ In self ps) ->
+  (forall ps, classify e = RetryExcluding ps ->
+              bully_guarded (br self bs (exclude holders ps)) self (exclude holders ps) = true) ->
   spec_ok (mkEnv tm holders t self unreach ready2 msgs2) retryable e (length runs1)
-    (continue key tm m classify holders t self retryable runs1 e winner ready2 msgs2) = true.
+    (continue key tm m br classify holders t self retryable runs1 e bs ready2 msgs2) = true.
 Proof. exact spec_ok_model. Qed.
 Print Assumptions C11_spec_ok_model.
 
+(* ... in particular, with the repaired election rule, whatever anybody sends during the election ... *)
+Theorem C11_spec_ok_model_strict : forall (key : peer -> N) tm m holders t self unreach retryable runs1 e bs ready2 msgs2,
+  In self holders -> wf_table m holders ->
+  spec_ok (mkEnv tm holders t self unreach ready2 msgs2) retryable e (length runs1)
+    (continue key tm m (bully_strict key) classify holders t self retryable runs1 e bs ready2 msgs2) = true.
+Proof. exact spec_ok_model_strict. Qed.
+Print Assumptions C11_spec_ok_model_strict.
+
 (* ... also for two relayers of one session, where the start message of the one is what the other's
    first attempt receives ... *)
-Theorem C11_duo_ok_model : forall (key : peer -> N) tm m holders t a c unreach ready1 msgs2,
+Theorem C11_duo_ok_model : forall (key : peer -> N) tm m br holders t a c unreach ready1 msgs2,
   In c holders -> wf_table m holders ->
   duo_ok (mkEnv tm holders t c unreach [] msgs2) a
-    (duo_a key m holders t a ready1) (duo_c key tm m classify holders t a c ready1 msgs2) = true.
+    (duo_a key m holders t a ready1) (duo_c key tm m br classify holders t a c ready1 msgs2) = true.
 Proof. exact duo_ok_model. Qed.
 Print Assumptions C11_duo_ok_model.
 
@@ -178,7 +239,7 @@ Print Assumptions C11_duo_ok_model.
    and enough reachable non-culprits are ready, the attempt runs; every key holder other than the
    culprits is sent the attempt's start message. *)
 Theorem C11_judge_retry_sound : forall ev nfirst o ps,
-  obs_allows ev nfirst o (RetryExcluding ps) = true ->
+  obs_allows ev nfirst o (RetryExcluding ps) = true -> ~ In (e_self ev) ps ->
   exists cs, o_elected o = Some cs
     /\ (forall p, In p ps -> ~ In p cs)
     /\ (forall p, In p (e_holders ev) -> ~ In p ps -> In p cs)
@@ -187,9 +248,27 @@ Theorem C11_judge_retry_sound : forall ev nfirst o ps,
         exists sub, In (true, sub) (skipn nfirst (o_runs o)))
     /\ (forall sub, In (true, sub) (skipn nfirst (o_runs o)) ->
         exists to, In (sub, to) (o_starts o)
-                   /\ forall p, In p (e_holders ev) -> p <> e_self ev -> ~ In p ps -> In p to).
+                   /\ forall p, In p (e_holders ev) -> p <> e_self ev -> ~ In p ps -> In p to)
+    (* whoever the relayer treats as coordinator of the replacement attempt - it answers its initiate
+       messages, it runs the process on its start message - is a key holder that is not a culprit *)
+    /\ (forall p, In p (o_ready2 o) -> In p (e_holders ev) /\ ~ In p ps)
+    /\ (forall l, In (false, l) (skipn nfirst (o_runs o)) ->
+        exists at_ f, In (at_, MStart f (Some l)) (e_msgs2 ev) /\ In f (e_holders ev) /\ ~ In f ps).
 Proof. exact obs_allows_retry_sound. Qed.
 Print Assumptions C11_judge_retry_sound.
+
+(* a recognised failure is never turned into success - also when it names this relayer itself (outside
+   the property's scope otherwise): a replacement attempt begins or the session ends with an error *)
+Theorem C11_judge_retry_self_sound : forall ev nfirst o ps,
+  obs_allows ev nfirst o (RetryExcluding ps) = true -> In (e_self ev) ps ->
+  (exists cs, o_elected o = Some cs) \/ o_final o <> FNil.
+Proof. exact obs_allows_retry_self_sound. Qed.
+Print Assumptions C11_judge_retry_self_sound.
+
+Theorem C11_judge_no_panic : forall ev retryable e nfirst o,
+  spec_ok ev retryable e nfirst o = true -> o_final o <> FPanic.
+Proof. exact spec_ok_no_panic. Qed.
+Print Assumptions C11_judge_no_panic.
 
 (* who is told: an accepted observation has, for every attempt the relayer ran as coordinator, a start
    broadcast with the announced params that addresses every key holder except itself and [ex] *)
@@ -264,8 +343,8 @@ Example C11_nonvacuous :
   /\ coordinator_unresponsive (mkTiming 300 3000) 1%N [(100, MInitiate 3); (200, MInitiate 3); (290, MStart 3 (Some [3]))]%N = true
   /\ tr_deadline (silent_wait (mkTiming 300 3000) 1%N [(100, MInitiate 3); (200, MInitiate 3)]%N) = 300%N
   /\ tr_deadline (silent_wait (mkTiming 300 3000) 1%N [(100, MInitiate 1); (200, MInitiate 3)]%N) = 400%N
-  /\ o_elected (session_silent key (mkTiming 300 3000) 5 classify [0; 1; 2; 3]%N 1%Z 0%N true
-                   [(100, MInitiate 3); (200, MInitiate 3)]%N None [2; 3]%N []) = Some [2; 0; 3]%N
+  /\ o_elected (session_silent key (mkTiming 300 3000) 5 (bully_coded key) classify [0; 1; 2; 3]%N 1%Z 0%N true
+                   [(100, MInitiate 3); (200, MInitiate 3)]%N [] [2; 3]%N []) = Some [2; 0; 3]%N
   (* culprit 2 unreachable, 3 and 0 ready: enough for t = 1, the replacement attempt runs *)
   /\ enough [0; 1; 2; 3]%N 1%Z [2%N] [2%N] 1%N [2; 3; 0]%N = true
   /\ enough [0; 1; 2; 3]%N 2%Z [2%N] [3%N] 1%N [2; 3; 0]%N = false
@@ -275,6 +354,18 @@ Example C11_nonvacuous :
   (* two relayers: 1 coordinates, 0 and 2 are ready first, 3 is left out: told, waits, joins the replacement *)
   /\ duo_a key 5 [0; 1; 2; 3]%N 2%Z 1%N [0; 2; 3]%N
        = mkObs [(true, [1; 2; 0]%N)] None [] [] FNil [] [([1; 2; 0]%N, [0; 1; 2; 3; 4]%N)]
-  /\ duo_c key (mkTiming 3000 3600000) 5 classify [0; 1; 2; 3]%N 2%Z 1%N 3%N [0; 2; 3]%N [(0, MStart 0 (Some [0; 3; 2]))]%N
-       = mkObs [(false, [1; 2; 0]%N); (false, [0; 3; 2]%N)] None [] [] FNil [] [].
+  /\ duo_c key (mkTiming 3000 3600000) 5 (bully_coded key) classify [0; 1; 2; 3]%N 2%Z 1%N 3%N [0; 2; 3]%N [(0, MStart 0 (Some [0; 3; 2]))]%N
+       = mkObs [(false, [1; 2; 0]%N); (false, [0; 3; 2]%N)] None [] [] FNil [] []
+  (* the election after culprit 2 was excluded (candidates in session order: 1, 0, 3), at key holder 3: the first
+     candidate 1 announces itself, then the culprit: ignored - as coded and repaired; the culprit announces
+     itself FIRST: as coded it is accepted and the first candidate's announcement no longer displaces it *)
+  /\ bully_coded key 3%N [BSelect 1; BElection 2; BAlive 2; BSelect 2]%N [0; 1; 3]%N = 1%N
+  /\ bully_coded key 3%N [BSelect 2; BSelect 1]%N [0; 1; 3]%N = 2%N
+  /\ bully_strict key 3%N [BSelect 2; BSelect 1]%N [0; 1; 3]%N = 1%N
+  (* a tss error without culprits is retried with everybody; the judge rejects a session that ended in
+     success without a replacement attempt *)
+  /\ classify (pool_join [pool_join [Node (KTss [] true) [Node KOther []]]]) = RetryExcluding []
+  /\ spec_ok (mkEnv (mkTiming 3600000 3600000) [0; 1; 2; 3]%N 1%Z 0%N [] [] []) true
+             (pool_join [pool_join [Node (KTss [] true) [Node KOther []]]]) 1
+             (mkObs [(false, [1; 0]%N)] None [] [] FNil [] []) = false.
 Proof. vm_compute. repeat split. Qed.
